@@ -1153,6 +1153,11 @@ class Sim:
             named={"nodes": {node}, "tracks": named_tracks},
             extra={"allowed_removals": allowed, "reason": inv or ("division" if "upstream_division" in tags or "downstream_division" in tags else None)},
         )
+        if op.get("scribble") and pixels is not None and not inv:
+            for a in pixels:
+                if isinstance(a, np.ndarray) and a.flags.writeable:
+                    a[...] = 0
+            self.count("client_reuses_pixel_arrays")
         if out["cls"] == "accepted":
             out["new_node"] = node
             for tg in tags:
@@ -1630,6 +1635,13 @@ class Sim:
             named={"nodes": named_nodes, "tracks": named_tracks},
             extra={"allowed_removals": allowed, "reason": "paint_" + "_".join(x for x in tags if x != "forced")},
         )
+        if op.get("scribble"):
+            # a client that keeps one set of brush-coordinate arrays and overwrites them in
+            # place for the next stroke: what it handed to the action must not change with it
+            for px, _ in updated:
+                for a in px:
+                    a[...] = 0
+            self.count("client_reuses_pixel_arrays")
         if out["cls"] != "accepted":
             # caller restores the painted pixels
             fr[mask] = saved[mask]
